@@ -128,10 +128,10 @@ func (c *Ctx) GetStaged() *Staged {
 			}
 		}
 		ks := []int{2}
-		acts := []int{0}
+		acts := []int{0, 2}
 		if c.Tier == "thorough" {
 			ks = []int{1, 2, 3}
-			acts = []int{0, 1}
+			acts = []int{0, 1, 2}
 		}
 		for _, k := range ks {
 			for _, a := range acts {
@@ -247,6 +247,8 @@ type loopFrame struct {
 var actionSets = [][]string{
 	{"", "$$ = $1", "$$ = $1 + $2", "{ $$ = $2 }"},
 	{"$$ = $1 * 2", "", "if $1 > 0 { $$ = $1 }", "$$ = $3"},
+	// adversarial representatives: $n / $$ mentioned only where Go does not read them (comment, string literal)
+	{"/* $1 */ $$ = 0", "$$ = 0 // $1 and $2", "_ = \"$1 $$\"", "/* $$ */"},
 }
 
 // minimum unrolling per loop, with the reason (DESIGN.md §2.3)
@@ -307,6 +309,23 @@ func (r *renderer) render(s Shape) string {
 		}
 		return b.String()
 	case *SAlt:
+		// a recognised predicate of user text: take the arm the generator takes for this placeholder text
+		if x.Pred != nil && !r.bothAlts {
+			saved := r.sentinel
+			r.sentinel = nil
+			subject := r.render(x.Pred.Subject)
+			r.sentinel = saved
+			v, err := x.Pred.eval(subject)
+			if err != nil {
+				r.errf("alternative on %s: %v", x.CondPath, err)
+			} else if v {
+				return r.render(x.Then)
+			} else {
+				return r.render(x.Else)
+			}
+		} else if x.Pred == nil && userTextPath(x.CondPath) && !r.bothAlts {
+			r.errf("the shape of the generated text depends on an unrecognised predicate of user-written text (%s): no placeholder can stand for all texts", x.CondPath)
+		}
 		// data-dependent alternative: alternate by iteration so both arms are rendered
 		if r.bothAlts {
 			return r.render(x.Then) + r.render(x.Else)
